@@ -36,7 +36,7 @@ ASSUMPTIONS = ["point_polygon_check classifies correctly (C16, not decided)", "s
 
 FR = "ghedesigner.feature_recognition"
 DOM = "ghedesigner.domains"
-SH = "ghedesigner.shape"
+SH = SHM = "ghedesigner.shape"
 
 
 def _bool_eval(node: ast.expr, val: dict) -> bool:
@@ -357,6 +357,28 @@ def _check_codes(prog: Program, res: Result):
             res.ob("R04.3", f"code 0 is returned on an on-edge exit ({t})", ok, prog.loc(fi, r))
             if not ok:
                 res.violation("R04.3", f"zero-exit|{t}", prog.loc(fi, r), q, f"code 0 (on edge) is returned under '{t}', which is not an on-edge condition")
+    # the polygon that is tested is the polygon that was given: the contour parameter is only ever re-bound to itself
+    # (list / tuple / array of it) or to itself without the repeated closing vertex of a closed ring
+    cpar = fi.params()[0]
+    for s_ in ast.walk(fi.node):
+        tg = s_.targets if isinstance(s_, ast.Assign) else ([s_.target] if isinstance(s_, (ast.AugAssign, ast.AnnAssign)) else [])
+        if not any(isinstance(t_, ast.Name) and t_.id == cpar for t_ in tg):
+            continue
+        v = getattr(s_, "value", None)
+        okv = False
+        if isinstance(v, ast.Call) and attr_chain(v.func) in ("list", "tuple", "np.array", "np.asarray", "numpy.array", "numpy.asarray") and len(v.args) == 1 and ast.unparse(v.args[0]) == cpar:
+            okv = True
+        elif isinstance(v, ast.Subscript) and ast.unparse(v.value) == cpar and isinstance(v.slice, ast.Slice) and v.slice.step is None:
+            lo = ast.unparse(v.slice.lower) if v.slice.lower is not None else "0"
+            hi = ast.unparse(v.slice.upper) if v.slice.upper is not None else "end"
+            one_end = (lo == "0" and hi == "-1") or (lo == "1" and hi == "end")
+            guard = next((g for g in ast.walk(fi.node) if isinstance(g, ast.If) and any(s_ is x for b_ in g.body for x in ast.walk(b_))), None)
+            gt_ = ast.unparse(guard.test) if guard is not None else ""
+            okv = one_end and f"{cpar}[0]" in gt_ and f"{cpar}[-1]" in gt_ and "==" in gt_
+        res.ob("R04.3", f"point_polygon_check tests the polygon it is given ('{norm_stmt(s_)[:60]}' keeps every distinct vertex)", okv, prog.loc(fi, s_))
+        if not okv:
+            res.violation("R04.3", f"contour-rebound|{norm_stmt(s_)[:60]}", prog.loc(fi, s_), q,
+                          f"'{norm_stmt(s_)[:80]}' replaces the polygon under test by something that is not the same set of vertices: points near the dropped vertices are classified against a different polygon")
     # parity
     if final is None:
         raise AnalysisError(f"{q}: final parity return not found")
@@ -430,6 +452,10 @@ def _check_order(prog: Program, res: Result):
 
 
 VARIANTS = [
+    Variant("closed rings lose their first vertex as well as the repeated last one (seeded C04_b)", "break",
+            [(SHM, "    def distance(pt_1, pt_2) -> float:", "    if len(contour) > 3 and list(contour[0]) == list(contour[-1]):\n        contour = contour[1:-1]\n\n    def distance(pt_1, pt_2) -> float:")], "R04.3"),
+    Variant("closed rings lose the repeated closing vertex only", "benign",
+            [(SHM, "    def distance(pt_1, pt_2) -> float:", "    if len(contour) > 3 and list(contour[0]) == list(contour[-1]):\n        contour = contour[:-1]\n\n    def distance(pt_1, pt_2) -> float:")]),
     Variant("property cut called with remove_inside=True", "break", [(DOM, "coordinates, property_boundary, remove_inside=False, keep_contour=keep_contour[0]", "coordinates, property_boundary, remove_inside=True, keep_contour=keep_contour[0]")], "R04.2"),
     Variant("default keep_contour drops the property contour", "break", [(DOM, "b_min, b_max_x, b_max_y, property_boundary, no_go_boundaries=None, keep_contour=[True, False]", "b_min, b_max_x, b_max_y, property_boundary, no_go_boundaries=None, keep_contour=[False, False]")], "R04.2"),
     Variant("classifier returns 2 on an edge", "break", [(SH, "        if abs(test_dist - v12_dist) < on_edge_tolerance:\n            return 0", "        if abs(test_dist - v12_dist) < on_edge_tolerance:\n            return 2")], "R04.3"),
